@@ -1648,6 +1648,15 @@ func SelectStrategy(n *nfa.NFA, re *syntax.Regexp, literals *literal.Seq, config
 		return UseDigitPrefilter
 	}
 
+	// A word boundary combined with a line or text anchor ($\b, \b(?m)^) is resolved
+	// wrongly by the lazy DFA (it reports "no match" for a$\b on "a"), whatever the
+	// size of the automaton: such patterns stay on the NFA engines. The guard used
+	// to sit inside the small-NFA case only, so larger patterns reached UseBoth and
+	// UseDFA, where a negative DFA answer is final for Match.
+	if hasWordBoundaryAnchorCombo(re) {
+		return UseNFA
+	}
+
 	// Small NFA (< 20 states): use pure DFA (no PikeVM verification).
 	// With tagged start states (Rust LazyStateID approach), DFA search handles
 	// prefilter correctly: start-tagged states always enter slow path for
